@@ -122,7 +122,7 @@ def readHeaderLoop : Nat → Bytes → Header → Outcome Header
   | 0, _, _ => .error eMIME
   | fuel+1, s, m =>
     match readLine s with
-    | none => .error eMIME                              -- io.EOF before the blank line
+    | none => .error eEOF                               -- io.EOF before the blank line (returned as is)
     | some (l, r) =>
       if l.isEmpty then .ok m                           -- blank line: end of the header block
       else if !(l.any (· == 58)) then .error eMIME      -- mustHaveFieldNameColon
